@@ -28,7 +28,8 @@ RULE = (
     "cases = (source: generated ModelSpec [<=2 populations, optional programs incl. explicit interaction outcomes] / hand-written 2-population 2-program spec / library "
     "projects udt, tb_simple; uncertainty class none|zero|parset|progset|both with sigmas drawn as 0.1-5% of the value (program outcomes: 0.001-0.03 absolute), or class init = sigma on "
     "initial stocks (compartment / characteristic databook entries) sized so that 20-60% of the draws are rejected with BadInitialization and resampled (rejections measured by a serial "
-    "replay and reported as labels rejected-draws / rejection-rate); samples 2..32; "
+    "replay and reported as labels rejected-draws / rejection-rate); in ~30% of the cases the source parameter set carries a saved initialization (set_initialization from an "
+    "unsampled run at a later time point); samples 2..32; "
     "per case 3 direct sample() probes, 2 serial calls of Project.run_sampled_sims and 1 parallel call with 1,2,3,4,8,16 workers (or Ensemble.run_sims(parallel=True)); drawn "
     "seeds for the global numpy generator before every call); oracle = pairwise distinct fingerprints (result arrays + program inputs kept by the run) within one call when a "
     "perturbed input is visible one-to-one in the fingerprint, bitwise equality with the unsampled run when every sigma is 0/None, sources canon-unchanged, sample() never "
@@ -39,6 +40,7 @@ ASSUMPTIONS = [
     "the harness does not own the OS schedule: it relies on the fault class (forked workers starting from one generator state) showing for (nearly) every schedule and varies worker and sample counts; a schedule in which a single worker happens to execute every task would hide it for that call",
     "distinctness is required only where a perturbed input reaches the fingerprint one-to-one (untargeted data parameter without function/limits/zero factor, or any program input, which Model.progset retains) and three harness-side perturbations confirm it; sigmas are at most 5% of the value; other cases (perturbation only on clipped, overwritten or function parameters, compartment sizes, transfers) are labelled no-one-to-one-path and still get every other oracle",
     "initial stocks count as one-to-one visible: the stored initial size of an ordinary compartment / initial value of a characteristic is value + delta for every accepted draw; the number of rejected draws is measured harness-side by replaying a serial sample-run-resample loop from the case's seed (the parallel workers' own rejections are not observable), at most 50 attempts per sample as in atomica",
+    "a saved initialization is part of the source parameter set: the unsampled reference run uses it, a sample must keep it (zero uncertainty => identical run) and the canonical form compared for 'source unchanged' includes it; with a saved initialization, uncertainty on databook stocks cannot reach the run, which the probes notice (distinctness then rests on other inputs or is not required)",
     "process start method is fork (Linux default in Python 3.12; sciris/multiprocess likewise): workers inherit the check process's sys.path, so VERIF_ATOMICA_SRC applies to workers as well",
     "serial reproducibility from np.random.seed is taken as promised because docs/examples/Uncertainty.ipynb seeds the global generator to obtain specific samples; parallel reproducibility and serial==parallel are not required",
     "a call that exhausts its 50 resampling attempts because of bad initial conditions is outside the domain (discarded, counted); generated specs atomica cannot build/run unsampled are discarded (C18)",
@@ -76,7 +78,12 @@ def cases(draw, tier="quick"):
         n = draw(st.integers(workers + 1, 32))
     else:
         n = draw(st.integers(2, 32))
-    return {"src": src, "unc": unc, "n": n, "par": par, "workers": workers, "seed": draw(SEEDS), "par_seed": draw(SEEDS), "probe_seeds": draw(st.lists(SEEDS, min_size=8 if unc == "init" else 3, max_size=8 if unc == "init" else 3, unique=True))}
+    case = {"src": src, "unc": unc, "n": n, "par": par, "workers": workers, "seed": draw(SEEDS), "par_seed": draw(SEEDS), "probe_seeds": draw(st.lists(SEEDS, min_size=8 if unc == "init" else 3, max_size=8 if unc == "init" else 3, unique=True))}
+    # the source parameter set sometimes carries a saved initialization (ParameterSet.set_initialization): the compartment sizes of
+    # an unsampled run at a later time point, so that it differs from the state the databook gives
+    if unc != "init" and draw(st.integers(0, 9)) < 3:
+        case["saved_init"] = {"index": draw(st.integers(1, 40))}
+    return case
 
 
 def strategy(tier):
@@ -140,6 +147,10 @@ def static_cases(tier):
     out.append(mk({"kind": "lib", "name": "tb_simple", "progs": False, "start_off": 1, "par": [], "prog": [], "covout": [], "init": [[1, 0.5244]]}, "init", 12, "project", 1, 17))
     out[-2]["probe_seeds"] += [6016, 7016, 8016, 9016, 10016]
     out[-1]["probe_seeds"] += [6017, 7017, 8017, 9017, 10017]
+    out.append(mk({"kind": "spec", "spec": _hand(zero_sigma)}, "zero", 4, "project", 2, 18))
+    out[-1]["saved_init"] = {"index": 6}
+    out.append(mk({"kind": "lib", "name": "udt", "progs": True, "start_off": 1, "par": [], "prog": [], "covout": []}, "none", 3, "ensemble", None, 19))
+    out[-1]["saved_init"] = {"index": 4}
     out.append(mk({"kind": "lib", "name": "tb_simple", "progs": True, "start_off": 1, "par": [[3, 0.0]], "prog": [[1, "unit_cost", 0.0]], "covout": [[0, 0.0, 0.95]]}, "zero", 4, "project", 2, 14))
     return out
 
@@ -247,6 +258,15 @@ def check(case):
         labels.append("init-uncertainty")
     what = "uncertainty=%s n=%d" % (labels[2], n)
 
+    if case.get("saved_init"):
+        try:
+            first = P.run_sim(ps, pg, ins)
+            t = np.asarray(first.t, dtype=float)
+            ps.set_initialization(first, year=t[1 + (case["saved_init"]["index"] - 1) % (len(t) - 1)] if len(t) > 1 else None)
+        except Exception as e:
+            raise Discard("unsampled run / set_initialization raised %s at %s (not a sampling matter)" % (type(e).__name__, simcase.atomica_frame(e)))
+        labels.append("saved-initialization")
+        what += " parset with saved initialization (year %r)" % ps.initialization.year
     try:
         base = P.run_sim(ps, pg, ins)
         fp_base = fingerprint(base)
